@@ -196,10 +196,16 @@ void Terminal::Impl::executeExitCmd(SessionContext *s, const Args &)
     if (!(s->options & kQuietMode))
         s->wp_conn->send(s->token, "Bye!\r\n");
 
+    //! 不能捕获 s 指针：同一批输入里再次执行 exit（如 "exit\r\n!!\r\n"）会排入第二个任务，
+    //! 它运行时会话对象已被第一个任务释放。改为捕获 token，执行时再确认会话是否还在
+    auto st = s->token;
+    auto wp_conn = s->wp_conn;
     wp_loop_->runNext(
-        [this, s] {
-            s->wp_conn->endSession(s->token);
-            deleteSession(s->token);
+        [this, st, wp_conn] {
+            if (sessions_.at(st) == nullptr)
+                return;
+            wp_conn->endSession(st);
+            deleteSession(st);
         },
         __func__
     );
